@@ -1204,6 +1204,20 @@ func c18Gen(r *rand.Rand) (C18Case, []C18Write) {
 		c.Deps = append(c.Deps, d2)
 		tags["two-deps"] = true
 	}
+	// sandwich shape: two join paths start from the SAME dependency dataset and a dependency on another dataset is
+	// declared between them; later rounds mostly leave `dep` alone (no unprocessed changes when its first path is
+	// evaluated), while the write-during-run cases mostly write to `dep` (during the batches of the one in between)
+	sandwich := !fan && len(c.Deps) == 1 && r.Intn(6) == 0
+	if sandwich {
+		a := mkChain("dep", 1)
+		x := mkChain("dep2", 1)
+		x.Joins[0].Predicate = pred(4)
+		b := mkChain("dep", 1)
+		b.Joins[0].Predicate = pred(6)
+		c.Deps = []C18Dep{a, x, b}
+		tags["two-deps"] = true
+		tags["same-dataset-paths-around-another-dependency"] = true
+	}
 	switch k := r.Intn(20); {
 	case k < 11:
 		for i := range c.Deps {
@@ -1321,6 +1335,9 @@ func c18Gen(r *rand.Rand) (C18Case, []C18Write) {
 		var ds string
 		for {
 			ds = c.Datasets[r.Intn(len(c.Datasets))]
+			if sandwich && r.Intn(10) < 7 {
+				ds = "dep"
+			}
 			if ds != c18Main || r.Intn(6) == 0 {
 				break
 			}
@@ -1421,6 +1438,9 @@ func c18Gen(r *rand.Rand) (C18Case, []C18Write) {
 			var ds string
 			for {
 				ds = c.Datasets[r.Intn(len(c.Datasets))]
+				if sandwich && r.Intn(10) < 7 {
+					ds = "dep2" // keeps `dep` without unprocessed changes and gives the dependency in between something to deliver
+				}
 				if ds != c18Main || r.Intn(3) == 0 {
 					break
 				}
